@@ -1681,12 +1681,13 @@ def wrap_exceptions(fun):
 class Process:
     """Linux process implementation."""
 
-    __slots__ = ["_cache", "_name", "_ppid", "_procfs_path", "pid"]
+    __slots__ = ["_cache", "_ctime", "_name", "_ppid", "_procfs_path", "pid"]
 
     def __init__(self, pid):
         self.pid = pid
         self._name = None
         self._ppid = None
+        self._ctime = None
         self._procfs_path = get_procfs_path()
 
     def _is_zombie(self):
@@ -1905,15 +1906,22 @@ class Process:
         return _psposix.wait_pid(self.pid, timeout, self._name)
 
     @wrap_exceptions
-    def create_time(self):
-        ctime = float(self._parse_stat_file()['create_time'])
+    def create_time(self, monotonic=False):
         # According to documentation, starttime is in field 21 and the
-        # unit is jiffies (clock ticks).
-        # We first divide it for clock ticks and then add uptime returning
-        # seconds since the epoch.
+        # unit is jiffies (clock ticks) since boot. It never changes for
+        # the lifetime of the process, so it is read only once.
+        if self._ctime is None:
+            ctime = float(self._parse_stat_file()['create_time'])
+            self._ctime = ctime / CLOCK_TICKS
+        if monotonic:
+            # Seconds since boot: unlike the value below this is not
+            # affected by system clock updates. Used to identify the
+            # process over time.
+            return self._ctime
+        # We add the boot time returning seconds since the epoch.
         # Also use cached value if available.
         bt = BOOT_TIME or boot_time()
-        return (ctime / CLOCK_TICKS) + bt
+        return self._ctime + bt
 
     @wrap_exceptions
     def memory_info(self):
